@@ -396,6 +396,7 @@ func (x *Exec) applyContract(st *State, key string, fc *FuncContract, sig *types
 	env2 := x.calleeEnv(st, key, sig, recv, args, fn)
 	env2.old = pre
 	env2.freshBase = freshBase
+	env2.freshTop = counterNow(st)
 	bindResults(env2, sig, rv)
 	for _, c := range fc.Ensures {
 		if !x.activeClause(c) {
@@ -419,6 +420,12 @@ func (x *Exec) lvalueAddr(env *Env, e CExpr) (string, types.Type) {
 			return p.S, pt.Elem()
 		}
 	case *CField:
+		// a ghost field of an interface-typed value lives at the object the interface refers to
+		if v, ok := tryTr(env, n.X); ok && v.T != nil && v.Sort == "Iface" {
+			if gf := x.w.ghostField(v.T, n.Name); gf != nil {
+				return app("fld", app("iref", v.S), fmt.Sprint(gf.Tag)), gf.T
+			}
+		}
 		// pointer-typed base?
 		base := func() (string, types.Type) {
 			if isLvalueExpr(n.X) {
@@ -758,6 +765,11 @@ func (x *Exec) lvalueType(fn *ssa.Function, sig *types.Signature, c *ssa.CallCom
 			if t == nil {
 				return nil
 			}
+			if _, isIface := t.Underlying().(*types.Interface); isIface {
+				if gf := x.w.ghostField(t, n.Name); gf != nil {
+					return gf.T
+				}
+			}
 			if pt, ok := t.Underlying().(*types.Pointer); ok {
 				t = pt.Elem()
 			}
@@ -1080,6 +1092,11 @@ func (x *Exec) sprintf(st *State, c *ssa.CallCommon, args []Val) (Val, bool) {
 			str := x.g.fresh("fmtarg", "Str")
 			st.assume(app(">=", app("len", str), "0"))
 			st.assume(app("=>", app("=", app("tid", elem), fmt.Sprint(x.w.typeID(types.Typ[types.String]))), app("=", str, app("select", scur, app("iref", elem)))))
+			pieces = append(pieces, str)
+		case 'x', 'X', 'q', 'c', 'o', 'b', 't', 'T', 'p':
+			// rendered to some string that is not modelled further (formatting has no effect on the heap)
+			str := x.g.fresh("fmtarg", "Str")
+			st.assume(app(">=", app("len", str), "0"))
 			pieces = append(pieces, str)
 		default:
 			return Val{}, false
